@@ -168,10 +168,11 @@ impl<'p> Gen<'p> {
         let many = pm(&mut r, p.many);
         let huge = pm(&mut r, p.huge);
         let key_pool = if many { 40 } else if pm(&mut r, p.overlap_keys) { 2 + r.below(2) as u16 } else { NKEYS };
-        let w = World { network: r.below(2) as u8, magic: if r.chance(1, 2) { 764824073 } else { 1097911063 }, scripts: vec![], datums: vec![], utxos: vec![] };
+        let w = World { network: r.below(2) as u8, magic: if r.chance(1, 2) { 764824073 } else { 1097911063 }, scripts: vec![], datums: vec![], utxos: vec![], decoded_scripts: false };
         let mut g = Gen { r, p, k, w, next_tx: 1, red: 1, native_ids: vec![], plutus_ids: vec![], ref_holder: BTreeMap::new(), datum_holder: BTreeMap::new(), key_pool, many, huge };
         g.make_scripts();
         g.make_datums();
+        g.w.decoded_scripts = pm(&mut g.r, g.p.alt_values);
         g
     }
 
